@@ -1,6 +1,7 @@
 package main
 
 import (
+	"os"
 	"fmt"
 	"go/constant"
 	"go/token"
@@ -1482,6 +1483,167 @@ func structFieldOfAlloc(al *ssa.Alloc, idx int, depth int) ssa.Value {
 				return structFieldOfAlloc(src, idx, depth+1)
 			}
 		}
+	}
+	return nil
+}
+
+
+// localStructFieldCases: like localStructField, but the local may be assigned as a whole in several places (each from a
+// composite built on the spot, or from another such local): every alternative with the block it was assigned in.
+func localStructFieldCases(v ssa.Value) []retCase {
+	var al *ssa.Alloc
+	idx := -1
+	switch x := v.(type) {
+	case *ssa.UnOp:
+		if x.Op != token.MUL {
+			return nil
+		}
+		fa, ok := x.X.(*ssa.FieldAddr)
+		if !ok {
+			return nil
+		}
+		a, ok := fa.X.(*ssa.Alloc)
+		if !ok {
+			return nil
+		}
+		al, idx = a, fa.Field
+	case *ssa.Field:
+		// Field of a loaded struct, or of a phi of loaded structs
+		switch y := stripConv(x.X).(type) {
+		case *ssa.UnOp:
+			if y.Op != token.MUL {
+				return nil
+			}
+			a, ok := y.X.(*ssa.Alloc)
+			if !ok {
+				return nil
+			}
+			al, idx = a, x.Field
+		case *ssa.Phi:
+			return structValueFieldCases(y, x.Field, y.Block(), 0)
+		default:
+			return nil
+		}
+	default:
+		return nil
+	}
+	return structFieldCasesOfAlloc(al, idx, 0)
+}
+
+func structFieldCasesOfAlloc(al *ssa.Alloc, idx int, depth int) (res []retCase) {
+	if os.Getenv("SG_DEBUG_HS") != "" {
+		defer func() { fmt.Fprintf(os.Stderr, "  sfc alloc=%v idx=%d depth=%d -> %d\n", al, idx, depth, len(res)) }()
+	}
+	if depth > 4 {
+		return nil
+	}
+	if _, isStruct := al.Type().(*types.Pointer).Elem().Underlying().(*types.Struct); !isStruct {
+		return nil
+	}
+	var fieldStores, wholeStores []*ssa.Store
+	for _, r := range refsOf(al) {
+		switch x := r.(type) {
+		case *ssa.FieldAddr:
+			for _, r2 := range refsOf(x) {
+				switch y := r2.(type) {
+				case *ssa.Store:
+					if y.Addr == ssa.Value(x) && x.Field == idx {
+						fieldStores = append(fieldStores, y)
+					}
+				case *ssa.UnOp:
+				default:
+					if x.Field == idx {
+						return nil
+					}
+				}
+			}
+		case *ssa.Store:
+			if x.Addr == ssa.Value(al) {
+				wholeStores = append(wholeStores, x)
+			} else {
+				return nil
+			}
+		case *ssa.UnOp, *ssa.DebugRef:
+		default:
+			if os.Getenv("SG_DEBUG_HS") != "" {
+				fmt.Fprintf(os.Stderr, "    odd ref %T %v\n", r, r)
+			}
+			return nil
+		}
+	}
+	var nz []*ssa.Store
+	for _, s := range wholeStores {
+		if k, ok := s.Val.(*ssa.Const); ok && k.Value == nil {
+			continue
+		}
+		nz = append(nz, s)
+	}
+	if os.Getenv("SG_DEBUG_HS") != "" {
+		fmt.Fprintf(os.Stderr, "    fieldStores=%d whole=%d nz=%d\n", len(fieldStores), len(wholeStores), len(nz))
+	}
+	switch {
+	case len(fieldStores) >= 1 && len(nz) == 0:
+		// one store, or one per branch (a result struct built in place in each returning branch)
+		var out []retCase
+		for _, fs := range fieldStores {
+			out = append(out, retCase{val: fs.Val, block: fs.Block()})
+		}
+		return out
+	case len(fieldStores) == 0 && len(nz) >= 1:
+		var out []retCase
+		for _, s := range nz {
+			sub := structValueFieldCases(s.Val, idx, s.Block(), depth+1)
+			if len(sub) == 0 {
+				return nil
+			}
+			for _, c := range sub {
+				if len(nz) > 1 && len(sub) == 1 {
+					c.block = s.Block() // the facts of the place where this alternative was assigned
+				}
+				out = append(out, c)
+			}
+		}
+		return out
+	}
+	return nil
+}
+
+
+// structValueFieldCases: field idx of a struct-typed SSA value: a struct loaded from a local, or a phi of such values
+// (a result variable assigned in several branches).
+func structValueFieldCases(v ssa.Value, idx int, blk *ssa.BasicBlock, depth int) []retCase {
+	if depth > 6 {
+		return nil
+	}
+	switch x := stripConv(v).(type) {
+	case *ssa.UnOp:
+		if x.Op != token.MUL {
+			return nil
+		}
+		if src, ok := x.X.(*ssa.Alloc); ok {
+			return structFieldCasesOfAlloc(src, idx, depth+1)
+		}
+	case *ssa.Phi:
+		var out []retCase
+		for i, e := range x.Edges {
+			if e == ssa.Value(x) {
+				continue
+			}
+			pred := x.Block().Preds[i]
+			sub := structValueFieldCases(e, idx, pred, depth+1)
+			if len(sub) == 0 {
+				return nil
+			}
+			ef := edgeFact(pred, x.Block())
+			for _, c := range sub {
+				c.extra = append(append([]Fact{}, ef...), c.extra...)
+				if len(sub) == 1 {
+					c.block = pred
+				}
+				out = append(out, c)
+			}
+		}
+		return out
 	}
 	return nil
 }
